@@ -8,6 +8,8 @@ from contracts.C18_config import ConfigContext
 from contracts.C20_subsample import PolarsSubsample
 from contracts.C11_drop_invalid_rows import PandasDropInvalidRows, PolarsDropInvalidRows
 from contracts.C03_polars_container_validate import PolarsContainerValidate
+from contracts.C04_polars_column_validate import PolarsColumnValidate
+from contracts.C05_multiindex_validate import MultiIndexValidate
 
 CONTRACTS = [ContainerValidate, SeriesSchemaValidate, ArrayValidate, IndexValidate, ColumnValidateRestoresSchema, RunSchemaComponentChecks,
-             ConfigContext, PolarsSubsample, PandasDropInvalidRows, PolarsDropInvalidRows, PolarsContainerValidate] + list(POLARS_API)
+             ConfigContext, PolarsSubsample, PandasDropInvalidRows, PolarsDropInvalidRows, PolarsContainerValidate, PolarsColumnValidate, MultiIndexValidate] + list(POLARS_API)
